@@ -81,6 +81,9 @@ def run_calls(k, calls):
             obs.append(("call %d: returned value %d is a plain number, not a wire object" % (ci, i), plain))
             if not plain:
                 continue
+            if isinstance(w, float) or type(w).__name__ == "SymReal":
+                obs.append(("call %d: returned value %d has the type the plain function returns (float)" % (ci, i),
+                            type(g).__name__ in ("float", "SymReal")))
             if isinstance(w, float) or isinstance(g, float) or type(g).__name__ == "SymReal" or type(w).__name__ == "SymReal":
                 obs.append(("call %d: returned value %d equals the plain function's" % (ci, i), g == w))
             else:
